@@ -234,7 +234,8 @@ instance : Monad Res where
 inductive CRes
   | code (n : Int)           -- `c_int`
   | ptr (null : Bool)        -- pointer result
-  | strv (null : Bool)       -- `Str` result (`data == NULL`?)
+  | strv (v : Option Bytes)  -- `Str` result: `none` = `data == NULL`; `some b` = non-NULL `data`, `len = b.length`
+                             -- (`Str::new("")` is non-NULL with `len = 0`, string.rs:19: present-but-empty ≠ absent)
   | bool (b : Bool)
   | raw                      -- value handed through
   | void
@@ -314,13 +315,13 @@ def validArg (e : Env R) (v : Nat) (k : Kind) : Bool :=
 
 def require (b : Bool) (why : String) : Res Unit := if b then .ok () else .notPermitted why
 
-/-- string.rs:19 `Str::new` (non-NULL `data`, must be freed) -/
-def allocStr (e : Env R) (dst : Nat) : Env R :=
+/-- string.rs:19 `Str::new(v)`: non-NULL `data` whatever the length (also for `v = ""`), must be freed -/
+def allocStr (e : Env R) (dst : Nat) (v : Bytes) : Env R :=
   let (e, h) := alloc e .str
-  (e.setVar dst (some h)).out (.strv false)
+  (e.setVar dst (some h)).out (.strv (some v))
 
 /-- string.rs:33 `Str::from_opt(None)` / `Str::EMPTY` -/
-def nullStr (e : Env R) (dst : Nat) : Env R := (e.setVar dst none).out (.strv true)
+def nullStr (e : Env R) (dst : Nat) : Env R := (e.setVar dst none).out (.strv none)
 
 /-- string.rs:53 `lol_html_str_free`; "valid to call even if `str.data == NULL`". -/
 def strFree (_pol : Policy) (e : Env R) (v : Nat) : Res (Env R) :=
@@ -459,7 +460,7 @@ def cUnitOp (pol : Policy) (t : Tid) (s : HState R) : COp → Res (HState R)
   | .strGet dst f => do
     let (s, r) ← callR pol s (.get f [])
     match r with
-    | .str _ => pure { s with env := allocStr s.env dst }
+    | .str v => pure { s with env := allocStr s.env dst v }
     | _ => .fault .rType
   | .optStrGet dst f args =>
     match decodeArgs args with
@@ -467,7 +468,8 @@ def cUnitOp (pol : Policy) (t : Tid) (s : HState R) : COp → Res (HState R)
     | .ok args => do
       let (s, r) ← callR pol s (.get f args)
       match r with
-      | .optStr (some _) => pure { s with env := allocStr s.env dst }
+      -- string.rs:33 `Str::from_opt`: `Some(v)` ↦ `Str::new(v)` (non-NULL even if empty), `None` ↦ NULL
+      | .optStr (some v) => pure { s with env := allocStr s.env dst v }
       | .optStr none => pure { s with env := nullStr s.env dst }
       | _ => .fault .rType
   | .intGet f args =>
@@ -575,7 +577,7 @@ def cUnitOp (pol : Policy) (t : Tid) (s : HState R) : COp → Res (HState R)
         else
           let (s, r) ← callR pol s (.attrGet (pos - 1) f)
           match r with
-          | .str _ => pure { s with env := allocStr s.env dst }
+          | .str v => pure { s with env := allocStr s.env dst v }
           | _ => .fault .rType
     | _ => .fault .typeConfusion
   | .strFree v => do
